@@ -37,9 +37,13 @@ CLAIMED = {
     text="Deterministic simulation of list views as transactions (open, append / remove / replace / reference-set / reference-remove incl. edits that must be refused, commit or abort) on different fields of one paragraph, interleaved and committed in any order by the seeded scheduler, with held ValueReferences and gc steps. Reads are judged against an independent splitter; an open view against a per-view list model; after a commit the field must re-read as the model list (splitter and fresh view), the rest of the document must be byte-identical (prefix + X + suffix), an untouched or aborted view must change nothing, and the document must still parse. Seeded sampling of layouts and histories.",
     ref="5.C11", note="Trusted: the 8-line splitter, the field mini-parser; one open view per field at a time; removing the last value excluded.",
     technique="deterministic simulation: seeded interleaving of commit-on-exit list-view transactions vs. splitter and list model"),
+ "C07": dict(level="exploration",
+    text="Deterministic simulation of a control-reader, a data-reader and up to three stream clients (file objects from get_file read in small chunks) that share one file object through two ArMembers and two lazily created TarFile readers, over packages assembled independently in any of the 5 x 5 part compressions, three tar formats and permuted member orders; the seeded scheduler interleaves whole queries (debcontrol, scripts, md5sums, has_file / in / get_content / [] under the three path spellings, name listings) with partial chunk reads. Results are compared with the packed dictionaries; structurally defective member sets (lost / duplicated parts) must raise DebError from the constructor; runs are repeated under three hash seeds. Seeded sampling.",
+    ref="5.C07", note="Trusted: the independent assembler (stdlib tarfile/gzip/bz2/lzma + 15-line ar writer, cross-checked against dpkg-deb in the fidelity self-test); text-mode reads follow Python's text layer (universal newlines).",
+    technique="deterministic simulation: seeded interleaving of part readers and chunked stream clients over one shared file object vs. packed dictionaries; hash-seed sweep"),
 }
 PENDING = {k: "Claimed in DESIGN.md section 5 (simulation target); its check is not built yet in this revision - listed here only until it is." for k in
-           "C07 C15".split()}
+           "C15".split()}
 NA = {
  "C01": "Pure function of the line list (quantifier: inputs only): no state, seam, fault or order of operations for a simulator to own; it is an enumeration / property-based-testing target (DESIGN.md section 2).",
  "C02": "Pure function of (text, input form, armor flag); the 'configurations' are argument shapes, not schedules or faults; input objects are iterated once, sequentially (DESIGN.md section 2).",
